@@ -1,1 +1,24 @@
-fn main() {}
+mod c12;
+mod core;
+mod dec;
+mod ints;
+mod refm;
+unsafe extern "C" {
+    fn mallopt(param: i32, value: i32) -> i32;
+}
+fn main() {
+    // keep large operand vectors on the heap free lists instead of mmap/munmap per batch (16 workers
+    // otherwise serialise on the address-space lock); purely a performance setting
+    unsafe {
+        mallopt(-3, 32 << 20); // M_MMAP_THRESHOLD (glibc maximum)
+        mallopt(-1, i32::MAX); // M_TRIM_THRESHOLD
+    }
+    let ctx = vcore::Ctx::from_args();
+    match ctx.prop.as_str() {
+        "C12" => c12::run(&ctx),
+        other => {
+            eprintln!("MACHINERY: vk-arith does not serve property {other:?}");
+            std::process::exit(2)
+        }
+    }
+}
